@@ -97,6 +97,55 @@ def reset_at(rng, point, net_script=(), settle=0.3):
     return recs
 
 
+def own_resets(rng, kind):
+    """resets issued from INSIDE a task of the connection that is being abandoned: the library's own
+    recovery reset (ping loop, on the first ping answered in an error state) and a client that presses
+    'reconnect' from its handler of an RF-error event (delivered by the RF-error consumer task).  The
+    calling task is itself a background task of the abandoned connection and has to end too."""
+    recs, calls = [], []
+    pressed = [0]
+
+    async def on_event(sess, man, event, rec, kw):
+        if kind == "client-in-rferr" and event.name == "ERROR_RF_ERROR" and pressed[0] == 0:
+            pressed[0] = 1
+            await man.async_reset()
+
+    with AsyncSession(on_event=on_event, rank=rng.choice(["stable", "perm", "reverse"]), rank_seed=rng.random()) as s:
+        loop, man = s.loop, s.man
+        orig = man.async_reset
+
+        async def observed_reset():
+            info = {"tasks0": list(loop.tasks), "transports0": list(loop.transports),
+                    "by": asyncio.current_task().get_name()}
+            try:
+                await orig()
+            finally:
+                info["t_ret"] = loop.time()
+                loop.call_at(loop.time() + 0.3, lambda: info.__setitem__("snap", snapshot(s, info["tasks0"], info["transports0"])))
+                calls.append(info)
+
+        man.async_reset = observed_reset
+        if not s.wait_connected(60):
+            raise env.MachineryError("own_resets: no connection")
+        s.advance(3.0)
+        if kind == "recovery":
+            s.net.blackhole = True
+            s.advance(200.0)
+            s.net.blackhole = False
+            s.advance(200.0)
+        else:
+            sid, cid = s.spa.descriptor.identifier, s.spa.client_id
+            s.inject(frame(sid, cid, b"RFERR"))
+            s.advance(30.0)
+        for i, c in enumerate(calls):
+            if "snap" not in c:
+                continue
+            recs.append({"kind": "reset", "point": 900000 + i, "within": 300, "by": c["by"], **c["snap"]})
+        if not any(c["by"].startswith("SPA:") for c in calls):
+            raise env.MachineryError(f"own_resets({kind}): no reset was issued from a connection task: {[c['by'] for c in calls]}")
+    return recs
+
+
 class tidy_period:
     """run a scenario with another task-tidy period (a configuration constant of both tables)"""
 
@@ -115,8 +164,14 @@ class tidy_period:
         cfg._GeckoIdleConfig.TASK_TIDY_FREQUENCY_IN_SECONDS, cfg._GeckoActiveConfig.TASK_TIDY_FREQUENCY_IN_SECONDS = self.saved
 
 
-def exit_at(rng, point, blackout=False):
-    s = AsyncSession(rank=rng.choice(["stable", "perm", "reverse"]), rank_seed=rng.random())
+def exit_at(rng, point, blackout=False, yielding=False):
+    """yielding: the client's handle_event really awaits (one loop iteration) in every delivery, so the
+    cancellations of __aexit__ and of gather() reach a task at two different awaits"""
+    async def on_event(sess, man, event, rec, kw):
+        if yielding:
+            await asyncio.sleep(0)
+
+    s = AsyncSession(on_event=on_event, rank=rng.choice(["stable", "perm", "reverse"]), rank_seed=rng.random())
     try:
         loop = s.loop
         if blackout:
@@ -167,7 +222,9 @@ def bookkeeping_probe(rng):
                 armed[0] = False
                 loop._run_once = orig
             orphans = [t.get_name() for t in added if not t.done() and t not in man._tasks]
-            man.cancel_key_tasks("GVPROBE")
+            async def cancel_family():          # library code runs inside the loop
+                man.cancel_key_tasks("GVPROBE")
+            s.run(cancel_family())
             s.advance(0.3)
             still = [t for t in added if not t.done()]
             for t in still:
@@ -210,7 +267,10 @@ def run(ctx):
     xp = [0.05, 2.0, 4.1, 4.5, 5.5, 8.0, 20.0] if ctx.quick else [round(0.05 + 0.15 * k, 2) for k in range(0, 70)] + [20.0, 130.0]
     for p in xp:
         recs += exit_at(rng, p)
+        recs += exit_at(rng, p, yielding=True)
     recs += exit_at(rng, 14.0, blackout=True)
+    recs += own_resets(rng, "recovery")
+    recs += own_resets(rng, "client-in-rferr")
     # the task-tidy period is a configuration constant: other values move the tidy pass relative
     # to task creation (reset and exit after a connection, for a sweep of periods)
     for tp in ([0.1, 0.2, 0.6, 1.4, 2.1, 4.2] if ctx.quick else [round(0.1 * k, 1) for k in range(1, 61)]):
